@@ -256,7 +256,9 @@ type rawHandlerFunc func(ctx context.Context, args *raw.Args) (*raw.Res, error)
 func (f rawHandlerFunc) Handle(ctx context.Context, args *raw.Args) (*raw.Res, error) { return f(ctx, args) }
 func (f rawHandlerFunc) OnError(ctx context.Context, err error)                          {}
 
-// listenerCase: accept loop on a wrapped listener, concurrent dialers, Close at a random moment.
+// listenerCase: accept loops on a wrapped listener, concurrent dialers, Close at a random moment.
+// Every dialer sends one byte: 'B' while Close has not returned, 'A' for dials started after
+// Close returned.  An accepted connection that carries 'A' was accepted after Close returned.
 func listenerCase(rng *rand.Rand) string {
 	base, err := net.Listen("tcp", "127.0.0.1:0")
 	if err != nil {
@@ -264,8 +266,9 @@ func listenerCase(rng *rand.Rand) string {
 	}
 	l := tnet.Wrap(base)
 	addr := base.Addr().String()
-	var closedAt atomic.Int64
+	var closed atomic.Int32
 	var late atomic.Int64
+	var accepted atomic.Int64
 	var wg sync.WaitGroup
 	for i := 0; i < 2; i++ {
 		wg.Add(1)
@@ -276,7 +279,10 @@ func listenerCase(rng *rand.Rand) string {
 				if err != nil {
 					return
 				}
-				if t := closedAt.Load(); t != 0 && time.Now().UnixNano() > t {
+				accepted.Add(1)
+				b := make([]byte, 1)
+				c.SetReadDeadline(time.Now().Add(200 * time.Millisecond))
+				if n, _ := c.Read(b); n == 1 && b[0] == 'A' {
 					late.Add(1)
 				}
 				c.Close()
@@ -294,7 +300,12 @@ func listenerCase(rng *rand.Rand) string {
 					return
 				default:
 				}
+				mark := byte('B')
+				if closed.Load() == 1 {
+					mark = 'A'
+				}
 				if c, err := net.DialTimeout("tcp", addr, 50*time.Millisecond); err == nil {
+					c.Write([]byte{mark})
 					c.Close()
 				}
 			}
@@ -302,18 +313,21 @@ func listenerCase(rng *rand.Rand) string {
 	}
 	time.Sleep(time.Duration(rng.Intn(3000)) * time.Microsecond)
 	l.Close()
-	closedAt.Store(time.Now().UnixNano())
+	closed.Store(1)
 	time.Sleep(3 * time.Millisecond)
 	close(stop)
 	wg.Wait()
 	if n := late.Load(); n > 0 {
-		return fmt.Sprintf("%d connection(s) were returned by Accept after Listener.Close had returned", n)
+		return fmt.Sprintf("%d connection(s) dialled after Listener.Close had returned were accepted", n)
 	}
 	return ""
 }
 
 func engineCloseWire(rng *rand.Rand, n int, tier string, o *Out) {
 	for c := 0; c < n; c++ {
+		if o.fails >= 8 {
+			break
+		}
 		topo := rng.Intn(3)
 		ncallers := 2 + rng.Intn(6)
 		ncalls := 2 + rng.Intn(5)
